@@ -128,6 +128,16 @@ Definition cdbd_guard (x : input) : bool :=
 Definition validate_cdbd (st : vstate) (x : input) : result :=
   if cdbd_guard x then Reject st else validate_X_batch st x.
 
+(** HistogramDensityMethod.set_reference with detect_batch = 1 (HDDDM, CDBD): the second half of the
+    reference is fed back as a test batch, so after validating the method refuses a reference of fewer
+    than three rows and puts the attributes back (histogram_density_method.py:235-242) *)
+Definition validate_reference_min3 (st : vstate) (x : input) : result :=
+  let prior := st in
+  match validate_X_batch st x with
+  | Reject s => Reject s
+  | Accept shp s => if fst shp <? 3 then Reject prior else Accept shp s
+  end.
+
 (** _validate_y.  Streaming: np.array(y).ravel().shape == (1,), i.e. exactly one element.
     Batch: arrays of <= 1 dimension become ONE ROW and are then refused because they have one row;
     2-D input needs a row count different from 1 and exactly one column. *)
@@ -186,12 +196,13 @@ Fixpoint accepted_inputs (V : validator) (st : vstate) (h : list input) : list i
     attributes (counters, drift_state, windows, statistics ...); [P]: the values carried by an
     input (the same for every container holding them).  Every concrete update() is
         early guard (CDBD only) ; reset-if-drift [pre] ; validate ; count-and-compute [body]
-    and [body] sees the validated array only: its shape and the values. *)
+    and [body] sees the validated array only: its shape and the values.  The payload also says which
+    method is called (update or set_reference), hence which validation [V p] runs. *)
 Section Machine.
   Variables D P : Type.
   Variable early : input -> bool.              (* raised before anything else happens *)
   Variable pre : D -> D.                       (* if drift_state == "drift": reset() *)
-  Variable V : validator.
+  Variable V : P -> validator.                 (* which validation this call runs (update / set_reference) *)
   Variable body : D -> Z * Z -> P -> D.        (* super().update(...) and the detector's own work *)
 
   Record mstate := mkM { m_v : vstate; m_d : D }.
@@ -200,7 +211,7 @@ Section Machine.
     if early (fst c) then (m, false)
     else
       let d1 := pre (m_d m) in
-      match V (m_v m) (fst c) with
+      match V (snd c) (m_v m) (fst c) with
       | Reject s => (mkM s d1, false)
       | Accept shp s => (mkM s (body d1 shp (snd c)), true)
       end.
@@ -247,10 +258,13 @@ Definition same_shape (co : input -> Z * Z) (x y : input) : Prop := co x = co y.
         NNDVI's new reference, ADWINAccuracy's 0/1 value); internal descriptors are oracle inputs,
         together with the shape each accepted invocation returned,
       - the observed outcome (accepted / ValueError) and the two attributes after the call. *)
-Inductive dkind := KStream | KStreamUni | KBatch | KBatchCdbd.
+Inductive dkind := KStream | KStreamUni | KBatch | KBatchCdbd
+                 | KBatchHdm1 (* HDDDM, detect_batch = 1 *) | KBatchCdbd1 (* CDBD, detect_batch = 1 *).
 
-Definition k_batch (k : dkind) : bool := match k with KBatch | KBatchCdbd => true | _ => false end.
+Definition k_batch (k : dkind) : bool :=
+  match k with KBatch | KBatchCdbd | KBatchHdm1 | KBatchCdbd1 => true | _ => false end.
 Definition k_uni (k : dkind) : bool := match k with KStreamUni => true | _ => false end.
+Definition k_min3 (k : dkind) : bool := match k with KBatchHdm1 | KBatchCdbd1 => true | _ => false end.
 Definition k_validator (k : dkind) : validator :=
   if k_batch k then validate_X_batch else validate_X_stream.
 Definition k_vy (k : dkind) : input -> bool :=
@@ -258,15 +272,18 @@ Definition k_vy (k : dkind) : input -> bool :=
 
 (** the four ways a detector of the library uses the validators for X:
     plain streaming (KdqTreeStreaming, PCACD), streaming with the univariate guard (ADWIN, CUSUM,
-    PageHinkley), plain batch (KdqTreeBatch, HDDDM, NNDVI), batch with CDBD's early guard *)
+    PageHinkley), plain batch (KdqTreeBatch, HDDDM, NNDVI), batch with CDBD's early guard; with
+    detect_batch = 1 the set_reference of HDDDM / CDBD additionally wants three rows *)
 Definition user_early (k : dkind) : input -> bool :=
-  match k with KBatchCdbd => cdbd_guard | _ => fun _ => false end.
-Definition user_validator (k : dkind) : validator :=
+  match k with KBatchCdbd | KBatchCdbd1 => cdbd_guard | _ => fun _ => false end.
+Definition user_validator (k : dkind) : validator :=       (* update() *)
   match k with
   | KStream => validate_X_stream
   | KStreamUni => validate_univariate
-  | KBatch | KBatchCdbd => validate_X_batch
+  | _ => validate_X_batch
   end.
+Definition call_validator (k : dkind) (is_ref : bool) : validator :=   (* set_reference() when [is_ref] *)
+  if k_min3 k && is_ref then validate_reference_min3 else user_validator k.
 Definition user_coerce (k : dkind) : input -> Z * Z :=
   if k_batch k then coerce_batch else coerce_stream.
 
@@ -276,7 +293,7 @@ Definition shape_eqb (a b : Z * Z) : bool := (fst a =? fst b) && (snd a =? snd b
     [None] nothing recorded, [Some None] it raised, [Some (Some shp)] it returned an array of shape shp) *)
 Definition invocation := (bool * input * option (option (Z * Z)))%type.
 
-Fixpoint run_invocations (k : dkind) (st : vstate) (invs : list invocation) : bool * vstate * bool :=
+Fixpoint run_invocations (k : dkind) (is_ref : bool) (st : vstate) (invs : list invocation) : bool * vstate * bool :=
   (* (call goes through, attributes afterwards, every recorded return/raise is the model's) *)
   match invs with
   | [] => (true, st, true)
@@ -289,13 +306,14 @@ Fixpoint run_invocations (k : dkind) (st : vstate) (invs : list invocation) : bo
                          | Some None => false
                          | None => true
                          end in
-          if k_uni k && negb (snd shp =? 1)
+          if (k_uni k && negb (snd shp =? 1)) || (user && k_min3 k && is_ref && (fst shp <? 3))
           then (false, st, seen_ok)                (* the guard restores the prior attributes *)
-          else let '(ok, s', rest_ok) := run_invocations k s t in (ok, s', seen_ok && rest_ok)
+          else let '(ok, s', rest_ok) := run_invocations k is_ref s t in (ok, s', seen_ok && rest_ok)
       end
   end.
 
 Record call := mkCall {
+  c_is_ref : bool;                       (* the call is set_reference (else update) *)
   c_x : option input; c_yt : option input; c_yp : option input;
   c_invs : list invocation;
   c_accepted : bool;                     (* observed: got past validation (returned, or failed later in the body) *)
@@ -308,10 +326,10 @@ Definition vstate_eqb (a b : vstate) : bool :=
 
 (** the model of one user-level call *)
 Definition call_model (k : dkind) (st : vstate) (c : call) : bool * vstate * bool :=
-  if (match k, c_x c with KBatchCdbd, Some x => cdbd_guard x | _, _ => false end) then (false, st, true)
+  if (match c_x c with Some x => user_early k x | None => false end) then (false, st, true)
   else if negb (opt_y (k_vy k) (c_yt c)) then (false, st, true)
   else if negb (opt_y (k_vy k) (c_yp c)) then (false, st, true)
-  else run_invocations k st (c_invs c).
+  else run_invocations k (c_is_ref c) st (c_invs c).
 
 (** a whole history from the attributes of a new detector: position of the first call whose
     outcome, attributes or recorded invocations differ from the model's; [None] = all agree *)
